@@ -7,4 +7,5 @@ sed -i "$3" $S/b/$2
 (cd $S && diff -u a/$2 b/$2) > /verif/selftest/mutants/$1.patch
 n=$(grep -c '^[-+][^-+]' /verif/selftest/mutants/$1.patch)
 echo "$1: $n changed lines"
+[ "$n" -eq 0 ] && { echo "ERROR: empty mutant, removed"; rm -f /verif/selftest/mutants/$1.patch; }
 rm -rf $S
